@@ -1159,6 +1159,7 @@ pub fn on_packet_complete(w: &mut World, conn: usize, idx: usize, t: u64) {
     w.conns[conn].outstanding_at_last_complete = is_ping || w.conns[conn].pingreq_outstanding.is_some();
     if is_ping {
         w.conns[conn].pingreq_outstanding = Some(t);
+        w.conns[conn].pingreq_first_offer = Some(w.conns[conn].packets[idx].t_first_offer);
         w.conns[conn].ping_times.push(t);
     }
 }
